@@ -53,6 +53,7 @@ def run(ctx):
     malsec.batch_store_grows(ctx, facts, "STORE-grow")
     malsec.segment_packing(ctx, facts, "PACK-slots")
     malsec.multiply_impls(ctx, facts, "WHO-multiply")
+    malsec.field_transport(ctx, facts, "FIELDS-block")
     tables(ctx, facts)
     ctx.assume("Lagrange interpolation identities and the u/v table algebra are not decided")
 
